@@ -688,7 +688,20 @@ def gen_loop(rng):
             'kw': [[n, c] for n, (c, _) in zip(kwn, comps[npos:])], 'tag': tag + (':wide' if wide else '') + (':leafkinds' if sp else '')}
     if npos == 0 and rng.random() < 0.3:
         case['first_kw'] = True
-    if rng.random() < 0.2:      # loop(list), loop(dict), loop(list, tuple) ...: containers of the other types are leaves
+    if rng.random() < 0.8:
+        # frozenset-keyed dict companions built in ANOTHER key order: sorted() on frozensets is only a partial order, so the code does not
+        # recognise the same key set and broadcasts the companion (KNOWN-FINDING c19_frozenset_key_order); only with all three types lifted
+        def reorder(x):
+            if isinstance(x, int): return x
+            if 'D' in x:
+                items = [[k, reorder(v)] for k, v in x['D'][1]]
+                if len(items) >= 2 and all(50 <= k < 60 for k, _ in items) and all(isinstance(v, int) for _, v in items) and rng.random() < 0.8:      # leaf values only: a broadcast dict of containers would additionally be searched at depth (the other finding)
+                    items = items[::-1] if rng.random() < 0.5 else rng.sample(items, len(items))
+                return {'D': [x['D'][0], items]}
+            tag = 'L' if 'L' in x else 'T'
+            return {tag: [reorder(y) for y in x[tag]]}
+        case['pos'] = [reorder(c) for c in case['pos']]; case['kw'] = [[n, reorder(c)] for n, c in case['kw']]
+    else:      # loop(list), loop(dict), loop(list, tuple) ...: containers of the other types are leaves
         case['types'] = rng.choice(['L', 'T', 'D', 'LT', 'LD', 'TD'])
         if 'T' not in case['types']:      # () is one shared object in CPython: the harness could not tell a collapsed () from f's empty *args
             def fill(x):
